@@ -867,7 +867,7 @@ impl<'a> FormatParser<'a> {
                     Field::DayName(NameStyle::Lower)
                 }
             };
-        } else if remain.len() >= 2 {
+        } else if remain.len() >= 2 && remain[1].eq_ignore_ascii_case(&b'y') {
             return match &remain[0..2] {
                 b"DY" => {
                     self.advance(2);
@@ -884,7 +884,9 @@ impl<'a> FormatParser<'a> {
             };
         }
 
-        Field::Invalid
+        // Neither `DAY` nor `DY`: a single `D` followed by something else.
+        self.advance(1);
+        Field::DayOfWeek
     }
 
     #[inline]
